@@ -3,6 +3,7 @@
   differential execution on every packet made of bit-fields) against the reference encoding.
 -/
 import Pdlv.Lemmas.JavaChunk
+import Pdlv.Lemmas.JavaArrays
 import Pdlv.Thm.C03
 
 namespace Pdlv
@@ -61,6 +62,19 @@ theorem java_reads_groups_of_8_16_32_bits (c : Cfg) (nm : String) (items : Items
       Pdlv.decodeFull { e := c.e, mode := .ideal } (.root nm items) bs = .ok v :=
   decode_same c nm items hw bs v
 
+/-- **C19, parser with arrays and payloads.**  For every packet or struct without parent made of bit-field groups of 8, 16
+    or 32 bits — among them size and count fields that are NOT exactly as wide as a Java integral type, without modifier —,
+    arrays of 8-, 16-, 32- or 64-bit scalars of every shape (static count, count field, size field, rest of the packet) and a
+    payload (sized, before static fields, or last) (`Java.decWfItems2`), both byte orders and EVERY byte string a Java array can
+    hold (fewer than 2^31 octets): the model of the emitted `fromBytes(byte[])` returns an object exactly when the reference
+    `decode_full` accepts, with the same field values — the sizes read as Java `int`s, the element count derived from a size by
+    division after the alignment test, the `BufferUnderflowException` of a read past the end, the slice of the payload. -/
+theorem java_reads_arrays_and_payloads (c : Cfg) (nm : String) (items : Items) (hw : decWfItems2 items = true)
+    (bs : Bytes) (hb : bs.length < 2 ^ 31) (v : Value) :
+    Java.decodeFull c (.root nm items) bs = .ok v ↔
+      Pdlv.decodeFull { e := c.e, mode := .ideal } (.root nm items) bs = .ok v :=
+  decode_same2 c nm items hw bs hb v
+
 /-- **KF-C19-int-chunk**: `packet P { a: 9, b: 2, c: 29 }` (one group of 40 bits, every field at most 32 bits wide) with
     `c = 0x1fffffff`: `c << 11` is computed in `int` and loses its high bits; the emitted bytes are `01 fa ff ff 00`
     where the reference writes `01 fa ff ff ff` -/
@@ -87,6 +101,15 @@ theorem signed_size_rejects_own_output :
     (Java.decodeFull { e := .little } (.root "P" items) (200 :: List.replicate 200 7)).isOk = false ∧
     (Pdlv.decodeFull { e := .little, mode := .ideal } (.root "P" items) (200 :: List.replicate 200 7)).isOk = true := by
   refine ⟨by decide +kernel, by decide +kernel⟩
+
+/-! non-vacuity: `packet P { t: 1, _size_(a): 7, a: 16[], _count_(b): 4, u: 4, b: 8[], _payload_ }` is in the extended class -/
+example :
+    let items : Items := .cons (.chunk [.scalar "t" 1, .size "a" 7 0]) (.cons (.array "a" (.scalar 16) (.static 2) .sizeField none)
+      (.cons (.chunk [.count "b" 4, .scalar "u" 4]) (.cons (.array "b" (.scalar 8) (.static 1) .countField none)
+      (.cons (.payload .last) .nil))))
+    decWfItems2 items = true ∧
+    (Java.decodeFull { e := .little } (.root "P" items) [0x09, 0x34, 0x12, 0x78, 0x56, 0x32, 9, 8, 0xaa]).isOk = true := by
+  refine ⟨by decide, by rfl⟩
 
 /-! non-vacuity: `packet P { a: 3, _fixed_ = 5 : 5, e: 16, _reserved_ : 8 }` is in the class -/
 example :
